@@ -294,6 +294,7 @@ func (e *Engine) checkOverflow(st *State, where string) {
 	}
 	e.OvfChecks++
 	bad := Not(And(st.ovf...))
+	pending := st.ovf
 	st.ovf = nil
 	if bad.IsFalse() {
 		return
@@ -301,8 +302,20 @@ func (e *Engine) checkOverflow(st *State, where string) {
 	switch e.S.Check(st.pc, bad) {
 	case Sat:
 		m, uf := e.modelNow()
+		culprit := ""
+		ask := map[string]*Term{}
+		for i, o := range pending {
+			ask[fmt.Sprint(i)] = o
+		}
+		vals := e.S.Values(ask)
+		for i, o := range pending {
+			if vals[fmt.Sprint(i)] == 0 {
+				culprit = truncate(o.String(), 300)
+				break
+			}
+		}
 		e.S.EndModel()
-		e.Failures = append(e.Failures, Failure{Kind: "overflow", Msg: "64-bit arithmetic may overflow (" + where + "): integer-mode verdicts on this path are not trusted", Model: m, UF: uf})
+		e.Failures = append(e.Failures, Failure{Kind: "overflow", Msg: "64-bit arithmetic may overflow (" + where + "): integer-mode verdicts on this path are not trusted; term: " + culprit, Model: m, UF: uf})
 	case Unknown:
 		e.S.EndModel()
 		e.Failures = append(e.Failures, Failure{Kind: "unknown", Msg: "no-overflow obligation undecided (" + where + ")"})
